@@ -212,6 +212,16 @@ func rootEnd(b []byte) int {
 }
 
 // parseXSDateTime parses the xs:dateTime lexical forms a conformant peer may write.
+// parseTimeCommaLenient: Go's time.Parse (1.17+) also takes a comma as the decimal separator of the seconds, which ISO 8601
+// allows and xs:dateTime does not. Such a value is reported under its own finding class and then evaluated as if it had a dot,
+// so that the other window rules keep their meaning.
+func parseTimeCommaLenient(s string) (time.Time, bool) {
+	if strings.Count(s, ",") != 1 {
+		return time.Time{}, false
+	}
+	return parseXSDateTime(strings.Replace(s, ",", ".", 1))
+}
+
 func parseXSDateTime(s string) (time.Time, bool) {
 	for _, l := range []string{"2006-01-02T15:04:05.999999999Z07:00", "2006-01-02T15:04:05Z07:00", "2006-01-02T15:04:05.999999999", "2006-01-02T15:04:05"} {
 		if t, err := time.Parse(l, s); err == nil {
